@@ -205,8 +205,41 @@ def g3(ctx):
                 yield dict(g='G3', disp=disp, mbs=mbs, text=t)
 
 
+def g4_texts(ctx):
+    """long client text made of multi-byte characters (2, 3 and 4 bytes in UTF-8), shifted by 0..3 ASCII characters, at every position"""
+    for ch in ('é', '€', '\U0001F600'):
+        for off in range(4):
+            for n in (130, 520, 1100):
+                lit = '"' + 'a' * off + ch * n + '"'
+                yield from positions(lit, echo=True)
+                yield '{"jsonrpc":"2.0","method":"ok","params":{%s:1},"id":1}' % lit
+                yield '[{"jsonrpc":"2.0","method":"ok","id":%s},{"jsonrpc":"2.0","method":"ok","id":%s}]' % (lit, lit)
+                yield '[%s]' % ','.join(['{"jsonrpc":"2.0","method":"ok","id":"%s"}' % (ch * 7)] * 40)
+
+
+def g4(ctx):
+    for disp in DISPS:
+        for t in g4_texts(ctx):
+            yield dict(g='G4', disp=disp, mbs=None, text=t)
+
+
+def g5(ctx):
+    """the application logs: the pjrpc loggers are enabled for DEBUG while the documents of G2 (single objects, arrays of <= 2) are served"""
+    for disp in ('sync', 'async', 'sync-mw', 'async-conc2'):
+        for j, i, m, p in itertools.product(['2.0', '1.0', '__absent__'], ['__absent__', None, 1, 'a', 1.5], METHODS, PARAMS):
+            yield dict(g='G5', disp=disp, mbs=None, log=True, text=json.dumps(obj(j, i, m, p, False)))
+        for n in range(0, 3):
+            for mbs in (None, 1):
+                for elems in itertools.product(range(len(ARRAY_ALPHABET)), repeat=n):
+                    yield dict(g='G5', disp=disp, mbs=mbs, log=True, text=json.dumps([ARRAY_ALPHABET[e] for e in elems]))
+        for t in ('', '{', '[1', 'nul', '[]', '1', '"x"'):
+            yield dict(g='G5', disp=disp, mbs=None, log=True, text=t)
+
+
 def gen_cases(ctx):
     yield from g3(ctx)
+    yield from g4(ctx)
+    yield from g5(ctx)
     yield from g2(ctx)
     yield from g1(ctx)
 
@@ -298,7 +331,12 @@ def check_text(case, rec):
 
 
 def run_case(case, rec):
-    r = check_text(case, rec)
+    if case.get('log'):
+        from mc.harness.clientrun import debug_logging
+        with debug_logging(True):
+            r = check_text(case, rec)
+    else:
+        r = check_text(case, rec)
     rec.states += 1
     rec.traces += 1
     rec.counters[case['g']] += 1
@@ -310,7 +348,8 @@ def run(ctx):
                 'for single objects (jsonrpc x id x method x params x extra member), all scalars, all arrays of length '
                 '<= %d over a 19-element alphabet (incl. repeated and falsy ids) x max_batch_size {None,0,1,2,n}; G3 = lexical edges (integer literals '
                 'of %r digits, non-finite / extreme floats, every escape / control / surrogate / astral character, '
-                'nesting 1..64 and 19 depths from 100 to 100000 around the interpreter limits, whitespace / BOM / duplicate members) at 14 positions. state = one (dispatcher, '
+                'nesting 1..64 and 19 depths from 100 to 100000 around the interpreter limits, whitespace / BOM / duplicate members) at 14 positions; G4 = strings of 130 / 520 / 1100 two-, three- and '
+                'four-byte characters behind 0..3 ASCII characters at every position; G5 = single objects and arrays of <= 2 served while the pjrpc loggers are enabled for DEBUG. state = one (dispatcher, '
                 'max_batch_size, text) point, distinct by construction; non-trivial = answered with anything other '
                 'than the plain parse error'
                 % (ctx.pick(5, 6), ctx.pick(4, 5), TOKENS, ctx.pick(3, 4), DIGITS))
